@@ -582,3 +582,39 @@ PROPS["C05"] = dict(
     rule="cases: every (kind, fault set) of MC_Lifecycle (3 kinds x ~80 faults, pairs in thorough) concretised on base documents; seeded: arbitrary bytes, JSON-alphabet bytes, 1-4 byte-level mutations (overwrite, delete, insert structural bytes, truncate, splice extreme numbers, duplicate chunks, long VLQ runs, swap) of every repository fixture map, random regular / Hermes / nested index documents (mutated or not), random multi-fault documents; each run through detect, decode, ~all read-only queries, serialise + redecode, 16 rewrite option combinations, flatten; distinct = distinct (input digest, step); non-trivial = any step other than detection",
     assumptions=COMMON_ASSUMPTIONS + ["fixtures are read from /repo/tests/fixtures at run time"],
 )
+
+# ---------------------------------------------------------------------------------------------
+# Extensions: behaviour beyond the listed properties, specified AS FOUND.  Not in MANIFEST.json
+# (the property list is fixed); `./check E01 quick` reports EXT-MISMATCH, never VIOLATION.
+def _corrupt_e01(e):
+    o = e["out"]
+    if e["op"] == "seek":
+        if o["res"]:
+            o["res"][0]["found"] = not o["res"][0]["found"]
+            return True
+        return False
+    if e["op"] == "setters":
+        o["set"]["file"] = ["other.js"]
+        return True
+    if e["op"] == "ord":
+        o["eq"] = not o["eq"]
+        return True
+    if e["op"] == "extras":
+        o["o"]["for_ram_bundle"] = not o["o"]["for_ram_bundle"]
+        return True
+    return False
+
+PROPS["E01"] = dict(
+    level="model_checking",
+    level_text="extension: TokenIter::seek/next, remove_names / set_file / set_debug_id and their persistence, Token Eq/Ord, RAM-bundle extras of index maps, specified as found (MapExt.tla) with two named deviations (SeekSkipsOneOnInexactHit, IndexExtrasNotSerialised)",
+    level_note="beyond the listed properties; not registered in MANIFEST.json",
+    technique="TLA+ as-found specification, TLC characterisation of the seek deviation, trace validation",
+    mc=[dict(module="MC_MapExt", cfg="MC_MapExt_quick.cfg", tiers=("quick",), workers=8),
+        dict(module="MC_MapExt", cfg="MC_MapExt_thorough.cfg", tiers=("thorough",), workers=12)],
+    trace="Trace_E01",
+    drive=dict(quick=dict(n=300, size=3), thorough=dict(n=5000, size=8)),
+    nontrivial=lambda e: True,
+    corrupt=_corrupt_e01,
+    rule="every ordered position list of MC_MapExt x 20 queries; seeded maps and index documents with x_facebook_offsets / x_metro_module_paths",
+    assumptions=COMMON_ASSUMPTIONS,
+)
